@@ -613,7 +613,8 @@ func (c *Ctx) sharedWrites(cbs []*ssa.Function, reach map[*ssa.Function]*Edge) [
 							}
 						}
 						// getters returning a field of a tainted receiver
-						if len(x.Call.Args) > 0 && x.Call.Args[0] == v && refLike(x.Type()) && len(sf.Blocks) > 0 && len(sf.Blocks[0].Instrs) < 12 {
+						// (a method of the object; a constructor that is handed the shared object makes a new one)
+						if len(x.Call.Args) > 0 && x.Call.Args[0] == v && refLike(x.Type()) && len(sf.Blocks) > 0 && len(sf.Blocks[0].Instrs) < 12 && sf.Signature.Recv() != nil {
 							add(x)
 						}
 					}
